@@ -3,14 +3,14 @@
 From Coq Require Import Reals ZArith List Bool Lra Lia String.
 From PyLib Require Import PyVal PyBuiltins Ideal Whnf PyEval.
 From Gen Require Import M_base M_Angle M_Epoch M_Interpolation M_Coordinates M_Earth M_Sun.
-From Proofs.C14 Require Import C14_tac C14_angle.
+From Proofs.C14 Require Import C14_tac C14_angle C14_angle2.
 Import ListNotations.
 Open Scope R_scope.
 
 Ltac2 Set Whnf.is_blocked as old := fun c =>
   Ltac2.Bool.or (old c)
    (Ltac2.List.exist (Ltac2.Constr.equal c)
-     ['@Sun_apparent_geocentric_position; '@Epoch___init__; '@Angle_reduce_deg;
+     ['@Sun_apparent_geocentric_position; '@Epoch___init__; '@Angle___init__; '@Angle___rsub__;
       '@Angle_to_positive; 'loop_fuel; 'Z.geb; 'Z.ltb; 'Z.leb; 'Z.gtb]).
 
 
@@ -68,7 +68,7 @@ Ltac sin_arg_eq :=
       end
   end.
 Ltac real_eq :=
-  unfold jdeA, jdeB, season_corr, season_arg; expose_R; Rlit_norm;
+  unfold jdeA, jdeB, season_corr, season_arg; expose_R; zsimp; Rlit_norm;
   first [ reflexivity | field | lra | (sin_arg_eq; first [reflexivity | lra | field]) ].
 
 Ltac closed_bool s :=
@@ -89,32 +89,31 @@ Ltac season_hook s :=
         | Hc : forall j, ?D j -> Epoch___init__ Rops _ (VTuple [VFloat j]) _ = _, HD : ?D ?q |- _ =>
             replace p with q by real_eq; rewrite (Hc q HD)
         end
-    | Sun_apparent_geocentric_position Rops (VObj cEpoch [VFloat ?e]) _ =>
-        match goal with
-        | Hs : forall e, ?D e -> Sun_apparent_geocentric_position Rops _ _ = _, HD : ?D e |- _ =>
-            rewrite (Hs e HD)
-        end
     | Angle_to_positive Rops (VObj cAngle [VFloat ?a; _]) =>
-        match goal with
-        | Hl : forall e : R, -360 < @?lam e < 360 |- _ => let Hp := fresh "Hp" in
-            pose proof (to_positive_val a ltac:(apply Hl)) as Hp; unfold ang, tol0 in Hp;
-            rewrite Hp; clear Hp
+        let Hp := fresh "Hp" in
+        pose proof (to_positive_val a ltac:(assumption)) as Hp; unfold ang, tol0 in Hp;
+        rewrite Hp; clear Hp
+    | Angle___rsub__ Rops (VObj cAngle [VFloat ?p; _]) (VFloat ?x) =>
+        lazymatch p with
+        | pos360 ?l =>
+            let Hr := fresh "Hr" in let Hp := fresh "Hp" in
+            pose proof (pos360_range l ltac:(assumption)) as Hr;
+            pose proof (angle_rsub p x ltac:(expose_R; zsimp; Rlit_norm; lra)) as Hp; unfold ang, tol0 in Hp;
+            rewrite Hp; clear Hp Hr
         end
-    | Angle_reduce_deg Rops (VFloat ?a) =>
-        match goal with
-        | Hl : forall e : R, -360 < @?lam e < 360 |- _ =>
-            match a with context [pos360 ?x] =>
-              let Hr := fresh "Hr" in
-              pose proof (pos360_range x ltac:(apply Hl)) as Hr;
-              rewrite (reduce_small a) by (expose_R; Rlit_norm; lra);
-              clear Hr
-            end
+    | Angle___init__ Rops _ (VTuple [VObj cAngle [VFloat ?a; _]]) _ =>
+        match a with
+        | context [pos360 ?l] =>
+            let Hr := fresh "Hr" in let Hp := fresh "Hp" in
+            pose proof (pos360_range l ltac:(assumption)) as Hr;
+            pose proof (angle_copy a ltac:(expose_R; zsimp; Rlit_norm; lra)) as Hp; unfold ang, tol0 in Hp;
+            rewrite Hp; clear Hp Hr
         end
     end.
 
 
 (* Structure of the call for season k: it equals a loop function F started at Epoch(jde0) with
-   corr = 1.0; F is characterised on fuel 0, on the exit branch, and on a failing Sun query. *)
+   corr = 1.0; F is characterised on fuel 0, on the exit branch, on a failing Sun query and on an iteration. *)
 Definition SeasonStructure (D : R -> Prop) (k y : Z) : Prop :=
   exists F : nat -> val R -> val R -> val R -> val R -> val R -> val R -> val R,
     Sun_get_equinox_solstice Rops (VInt y) (VStr (season_name k))
@@ -125,7 +124,15 @@ Definition SeasonStructure (D : R -> Prop) (k y : Z) : Prop :=
        F (S n) a (VFloat c) (epo e) la lo r = epo (e - c)) /\
     (forall n a c e la lo r x, 25 / 10000000 < Rabs c ->
        Sun_apparent_geocentric_position Rops (epo e) (VBool true) = VErr x ->
-       F (S n) a (VFloat c) (epo e) la lo r = VErr x).
+       F (S n) a (VFloat c) (epo e) la lo r = VErr x) /\
+    (* one more iteration: Sun at longitude l, correction 58 sin(k*90 - l), epoch advanced by it *)
+    (forall n a c e la lo r l b rr, 25 / 10000000 < Rabs c -> -360 < l < 360 ->
+       Sun_apparent_geocentric_position Rops (epo e) (VBool true) = VTuple [ang l; ang b; VFloat rr] ->
+       D (e + 58 * sin ((IZR k * 90 - pos360 l) * (PI / 180))) ->
+       exists a' la' lo' r',
+       F (S n) a (VFloat c) (epo e) la lo r
+       = F n a' (VFloat (58 * sin ((IZR k * 90 - pos360 l) * (PI / 180))))
+             (epo (e + 58 * sin ((IZR k * 90 - pos360 l) * (PI / 180)))) la' lo' r').
 
 Ltac season_pre :=
   let Hy := fresh "Hy" in let Hctor := fresh "Hctor" in let HD0 := fresh "HD0" in
@@ -153,21 +160,20 @@ Ltac season_structure :=
     match type of Hc with _ = ?f loop_fuel _ _ _ _ _ _ =>
       exists f; split;
       [ rewrite Hc; clear Hc; repeat f_equal; expose_R; Rlit_norm; lra
-      | clear Hc; split; [ intros; reflexivity | split ] ]
+      | clear Hc; split; [ intros; reflexivity | split; [ | split ] ] ]
     end
   end;
   [ intros n a c e la lo r Hc HDe; unfold epo in *; pyrun2; reflexivity
-  | intros n a c e la lo r x Hc Hs; unfold epo in *; pyrun2; reflexivity ].
+  | intros n a c e la lo r x Hc Hs; unfold epo in *; pyrun2; reflexivity
+  | intros n a c e la lo r l b rr Hc Hl Hs HDn; do 4 eexists; unfold epo, ang, tol0 in *; pyrun2;
+    match goal with
+    | |- _ _ _ (VFloat ?c1) _ _ _ _ = _ _ _ (VFloat ?c2) _ _ _ _ => replace c1 with c2 by real_eq
+    end;
+    match goal with
+    | |- _ _ _ _ (VObj cEpoch [VFloat ?e1]) _ _ _ = _ _ _ _ (VObj cEpoch [VFloat ?e2]) _ _ _ => replace e1 with e2 by real_eq
+    end;
+    reflexivity ].
 
 Definition CtorExact (D : R -> Prop) : Prop :=
   forall j, D j -> Epoch___init__ Rops (VObj cEpoch [VNone]) (VTuple [VFloat j]) (VDict []) = epo j.
 
-Ltac py_stuck_hook s ::= season_hook s.
-Lemma season_structure_A0 (D : R -> Prop) y : (-1000 <= y < 1000)%Z -> CtorExact D -> D (jde0 0 y) -> SeasonStructure D 0 y.
-Proof. unfold SeasonStructure, CtorExact. season_structure. Qed.
-Lemma season_structure_A1 (D : R -> Prop) y : (-1000 <= y < 1000)%Z -> CtorExact D -> D (jde0 1 y) -> SeasonStructure D 1 y.
-Proof. unfold SeasonStructure, CtorExact. season_structure. Qed.
-Lemma season_structure_A2 (D : R -> Prop) y : (-1000 <= y < 1000)%Z -> CtorExact D -> D (jde0 2 y) -> SeasonStructure D 2 y.
-Proof. unfold SeasonStructure, CtorExact. season_structure. Qed.
-Lemma season_structure_A3 (D : R -> Prop) y : (-1000 <= y < 1000)%Z -> CtorExact D -> D (jde0 3 y) -> SeasonStructure D 3 y.
-Proof. unfold SeasonStructure, CtorExact. season_structure. Qed.
